@@ -647,6 +647,17 @@ class _MissingImportFinder:
                 else:
                     self._visit_Load_defered_global(e.s)
 
+    def visit_AugAssign(self, node) -> None:
+        # ``x += y`` reads ``x`` before storing it.
+        assert node._fields == ('target', 'op', 'value'), node._fields
+        target = node.target
+        if isinstance(target, (ast.Name, ast.Attribute)):
+            load_target = copy.copy(target)
+            load_target.ctx = ast.Load()
+            self.visit(load_target)
+        self.visit(node.value)
+        self.visit(target)
+
     def visit_ClassDef(self, node):
         logger.debug("visit_ClassDef(%r)", node)
         if sys.version_info > (3,12):
